@@ -209,7 +209,7 @@ def _axes(s, labels=None):
         lv = np_labels(l, k)
         if s.get("ldt") and s["ldt"][i]:        # narrow label dtype (int8 ... float32): fresh-variant specs only
             lv = lv.astype(s["ldt"][i])
-        ax = Axis(lv, d)
+        ax = Axis(lv, d, tol=s["axtol"][i]) if s.get("axtol") and s["axtol"][i] is not None else Axis(lv, d)   # axis-level tolerance
         for ak, av in (s.get("axattrs") or {}).get(d, {}).items():
             ax.attrs[ak] = av
         axes.append(ax)
